@@ -1,3 +1,4 @@
+import SemantivaModel.Driver.C08
 import SemantivaModel.Driver.C11
 import SemantivaModel.Driver.C12
 import SemantivaModel.Driver.C13
@@ -23,6 +24,8 @@ def dispatch (st : DState) (j : Json) : Except String (DState × Json) := do
   else if m.startsWith "c13." then
     let (s, r) ← C13.handle st.c13 m j
     pure ({ st with c13 := s }, r)
+  else if m.startsWith "c08." then
+    pure (st, ← C08.handle m j)
   else throw s!"unknown model op {m}"
 
 partial def loop (h : IO.FS.Stream) (out : IO.FS.Stream) (st : DState) : IO Unit := do
